@@ -14,7 +14,9 @@ func series(name string, ls [][2]string, v float64, ts *int64, ex ...exm) ent {
 func corpus() []corpusCase {
 	a1 := [][2]string{{"a", "1"}}
 	a2 := [][2]string{{"a", "2"}}
-	le := func(ls [][2]string, v string) [][2]string { return append(append([][2]string{}, ls...), [2]string{"le", v}) }
+	le := func(ls [][2]string, v string) [][2]string {
+		return append(append([][2]string{}, ls...), [2]string{"le", v})
+	}
 	typ := ent{Kind: "type", Name: "h", Typ: "histogram"}
 	grp := func(ls [][2]string, ts *int64, ex ...exm) []ent {
 		b := series("h_bucket", le(ls, "1"), 2, ts, ex...)
